@@ -675,6 +675,8 @@ def bounded(tier, seed):
                         cands.append((nm, ap))
                 except Exception:
                     pass
+            if not cands:
+                break               # no catalogue operation applies to this file any more (e.g. every dimension gone)
             nm, ap = run.rng.choice(cands)
             seq.append(nm)
             res = {}
